@@ -18,7 +18,7 @@ RULE = ('one case = one history of batches through one WorstCaseEvaluator or Gra
         'earlier batches.  Non-trivial = at least two batches went through the evaluator; distinct = hash of '
         '(family, evaluator, configuration, batch sizes, first costs).')
 ASSUMPTIONS = [
-    'objective failures off (observation O2: a re-rolled parent keeps neighbours built from the old vector; C14 does not quantify over faults)',
+    'objective failures only as transient failures of *designs* under the worst-case evaluator in the batch family (the neighbours must then sit around the re-rolled vector); otherwise off (observation O2: a re-rolled parent keeps neighbours built from the old vector; C14 does not quantify over faults)',
     'NSGA-II parent copies are recorded but never evaluated and carry no neighbours: they are not "evaluated designs" and are skipped',
     'sensitivity compared to 1e-12 relative (same summation order), gradient to 1e-9 relative',
 ]
@@ -28,7 +28,7 @@ COMPONENTS = {
     'stub': ['user objective (harness world)', 'joblib (SimParallel)', 'time.time', 'uuid1'],
 }
 PROBES_EXPECTED = ['worst_batches', 'gradient_batches', 'second_or_later_batch', 'earlier_designs_rechecked', 'run_family',
-                   'resubmitted_design', 'parallel_batches']
+                   'resubmitted_design', 'parallel_batches', 'failed_parent_rerolled', 'integer_coordinates']
 
 
 class Oracle:
@@ -44,7 +44,10 @@ class Oracle:
     def after_batch(self, batch, resubmitted=()):
         ctx, w = self.ctx, self.w
         self.nb += 1
-        new_calls = w.calls[self.seen_calls:]
+        all_new = w.calls[self.seen_calls:]
+        new_calls = [c for c in all_new if c.outcome == 'ok']      # retried attempts of a failed design are C06's business
+        if len(all_new) != len(new_calls):
+            ctx.probe('failed_parent_rerolled', len(all_new) - len(new_calls))
         self.seen_calls = len(w.calls)
         ctx.probe('worst_batches' if self.kind == 'worst' else 'gradient_batches')
         if self.nb >= 2:
@@ -161,10 +164,25 @@ def _batch(D):
     nb = 1 + D.dec('cfg', 'nbatches', 5)
     sizes = []
     allowed_resubmit = D.dec('cfg', 'resubmit', 4) == 1
+    faulty = D.dec('cfg', 'wcfaults', 3) == 1
     try:
         for b in range(nb):
             nd = 1 + D.dec('work', ('nd', b), 6)
             batch = [Individual(W.gen_vector(w, D, 'work', ('v', b, i))) for i in range(nd)]
+            for i, ind in enumerate(batch):
+                # designs given with integer coordinates (legal: a user may write [1, -2, 3]) where the box contains integers
+                if D.dec('work', ('intvec', b, i), 6) == 1:
+                    iv = [int(round(x)) for x in ind.vector]
+                    if all(p['bounds'][0] <= v <= p['bounds'][1] for v, p in zip(iv, w.params)):
+                        ind.vector = iv
+                        ctx.probe('integer_coordinates')
+            if kind == 'worst' and faulty:
+                # transient failures of *designs* (never of neighbour designs: a failed neighbour is re-rolled by Job and is
+                # then no neighbour any more - outside C14, like observation O2 for the gradient evaluator)
+                for i, ind in enumerate(batch):
+                    k = D.weighted('fault', ('wcfail', b, i), (5, 2, 1))
+                    if k:
+                        w.pattern[ind.id] = [('timeout', 'runtime')[D.dec('fault', ('wck', b, i, j), 2)] for j in range(k)] + ['ok']
             res = []
             if allowed_resubmit and orc.ever and D.dec('work', ('rs', b), 2):
                 old = orc.ever[D.dec('work', ('rsi', b), len(orc.ever))][0]
